@@ -54,9 +54,11 @@ class HasControlledBy:
         to be called from the write_target method
         """
         if self.controlled_by:
-            self.controlled_by = 0  # self
+            # first switch off the controlling module(s): when this fails, the output
+            # must not yet pretend to be self controlled (as in HasOutputModule.activate_control)
             for deactivate_control in self.inputCallbacks.values():
                 deactivate_control(self.name)
+            self.controlled_by = 0  # self
 
     def update_target(self, module, value):
         """update internal target value
